@@ -100,6 +100,11 @@ type GField struct {
 	Comment  string
 	Sep      string
 	Constant string // a constant line emitted before this field
+	// Pad > 0 makes one line of this field that long (generated files embed licence texts, long string
+	// constants and tables in comments): PadKind 0 a comment line before the field, 1 the field's trailing
+	// comment, 2 a string constant before the field
+	Pad     int
+	PadKind int
 }
 
 type GType struct {
@@ -171,6 +176,10 @@ func genC19(t *rapid.T) C19Case {
 			if rapid.IntRange(0, 5).Draw(t, "const?") == 0 {
 				g.Constant = rapid.SampledFrom([]string{"int32 FOO=1", "string NAME=hello world # not a comment", "uint8 BAR = 7", "float32 PI=3.14 # pi"}).Draw(t, "const")
 			}
+			if rapid.IntRange(0, 50).Draw(t, "long-line?") == 0 {
+				g.Pad = rapid.SampledFrom([]int{4096, 65535, 65536, 65537, 70000, 131073, 1 << 20}).Draw(t, "pad")
+				g.PadKind = rapid.IntRange(0, 2).Draw(t, "pad-kind")
+			}
 			c.Types[i].Fields = append(c.Types[i].Fields, g)
 		}
 	}
@@ -229,10 +238,23 @@ func (c *C19Case) render() string {
 			if f.Constant != "" {
 				sb.WriteString(f.Constant + "\n")
 			}
+			pad := ""
+			if f.Pad > 0 {
+				pad = strings.Repeat("long text ", f.Pad/10+1)[:f.Pad]
+			}
+			switch {
+			case f.Pad > 0 && f.PadKind == 0:
+				sb.WriteString("# " + pad + "\n")
+			case f.Pad > 0 && f.PadKind == 2:
+				sb.WriteString("string LONG_" + f.Name + "=" + pad + "\n")
+			}
 			w, _ := c.typeText(i, f)
 			line := w + f.Sep + f.Name
 			if f.Comment != "" {
 				line += " " + f.Comment
+			}
+			if f.Pad > 0 && f.PadKind == 1 {
+				line += " # " + pad
 			}
 			sb.WriteString(line + "\n")
 			if c.Blank && fi%2 == 0 {
@@ -389,8 +411,21 @@ func checkC19(c C19Case, st *stats.Collector) error {
 	if styles[2] {
 		classes = append(classes, "Header-special")
 	}
+	longest := 0
+	for _, i := range c.reachable() {
+		for _, f := range c.Types[i].Fields {
+			if f.Pad > longest {
+				longest = f.Pad
+			}
+		}
+	}
+	if longest >= 65536 {
+		classes = append(classes, "line>=64KiB")
+	} else if longest > 0 {
+		classes = append(classes, "line>=4KiB")
+	}
 	st.Case(wl.Hash(c), nontrivial, 1, classes...)
-	if nontrivial && st.WantSample() {
+	if nontrivial && longest == 0 && st.WantSample() {
 		st.Sample(map[string]any{"definition": def})
 	}
 	return nil
